@@ -47,6 +47,7 @@ def run(ctx, run):
     _one_message_per_idle_pass(ctx, run, P.need("vbi_proxyd_handle_client_sockets", UNIT))
     _removed_client_reschedules(ctx, run, P.need("vbi_proxyd_handle_client_sockets", UNIT))
     _force_free_spares_nobody(ctx, run, P.need("vbi_proxy_queue_force_free", UNIT))
+    _started_read_is_finished_first(ctx, run, P.need("vbi_proxyd_get_fd_set", UNIT))
     # 'nor stops serving': a mutex taken twice or kept at a return blocks the daemon for everybody (shared with C18)
     from . import C18
     C18.lock_discipline(ctx, run)
@@ -1055,3 +1056,59 @@ def _force_free_spares_nobody(ctx, run, f):
         else:
             run.holds("RF-DOM", key, "the forced release depends only on the client's cursor standing on the head frame", ex.loc(f, i))
     run.floor("forced releases inside the client loop of vbi_proxy_queue_force_free", n, 1)
+
+
+def _started_read_is_finished_first(ctx, run, f):
+    """One message at a time per client: when the first part of a request has been received, the daemon finishes
+    reading it before it writes to that client again - the main loop then selects that socket for reading only.  In
+    vbi_proxyd_get_fd_set() every store into the write set is therefore dominated by `vbi_proxy_msg_read_idle (&req->io)`
+    having said "idle".  If queued data takes precedence, a client that stalls in the middle of a request is served
+    frames for ever and its half-read request (token release, close) is never acted on."""
+    run.touch(f)
+    if len(f.params) < 2:
+        raise AnalysisBroken("vbi_proxyd_get_fd_set: signature changed")
+    wr = f.params[1]["name"]
+    n = 0
+    def base_of(node, depth=0):
+        """(is the write set, [(cond node, truth)]) for the object an lvalue designates."""
+        j = ex.skip(f, node)
+        e = f.exprs[j]
+        if depth > 12:
+            return False, []
+        if e["k"] == "ref":
+            return (e.get("name") == wr and e.get("dk") == "param"), []
+        if e["k"] == "cond" and len(e.get("c", [])) == 3:
+            a1, c1 = base_of(e["c"][1], depth + 1)
+            a2, c2 = base_of(e["c"][2], depth + 1)
+            if a1 and not a2:
+                return True, c1 + [(e["c"][0], True)]
+            if a2 and not a1:
+                return True, c2 + [(e["c"][0], False)]
+            return (a1 and a2), []
+        if e.get("c"):
+            return base_of(e["c"][0], depth + 1)
+        return False, []
+    for bid, i in flow.all_events(f):
+        hit, conds = False, []
+        for lhs, var, op, rhs in flow.stores(f, i):
+            if lhs is None:
+                continue
+            h, cs = base_of(lhs)
+            if h:
+                hit, conds = True, cs
+        if not hit:
+            continue
+        n += 1
+        ats = list(atoms.atoms_at(f, i))
+        for cnode, truth in conds:
+            ats.extend(atoms.atoms_of(f, cnode, truth, bid, None))
+        ok = any(a.call_cmp("vbi_proxy_msg_read_idle", "!=", 0) for a in ats)
+        key = "RF-DOM:vbi_proxyd_get_fd_set:write-set-only-when-read-idle@%d" % n
+        if ok:
+            run.holds("RF-DOM", key, "the client socket enters the write set only when no message read is in progress", ex.loc(f, i))
+        else:
+            run.violation("RF-DOM", key, "a client socket is put into the write set although a read of a message may be in progress "
+                          "(not dominated by vbi_proxy_msg_read_idle () != FALSE): the daemon keeps writing to a client whose "
+                          "request it has received only in part, and that request is never completed", ex.loc(f, i),
+                          witness={"function": f.name})
+    run.floor("stores into the write fd_set in vbi_proxyd_get_fd_set", n, 1)
